@@ -22,7 +22,30 @@
 //!             write_cloud_jsonl_vec (the same key may be written several times), then each
 //!             listed key through read_cloud_jsonl_vec;
 //!             out = one ["ok", signature id of the stored bytes, records] | ["err", kind] per key
-//! A string is a JSON string or an array of code points. Outcomes: ["ok", v] | ["err", kind].
+//!   ops       in = [[op, ...]]  a call sequence on ONE store holding several buckets; per op one outcome:
+//!               ["w", bucket, key, [records]]  write_cloud_jsonl_vec          -> ["ok", n] | ["err", k]
+//!               ["raw", bucket, key, codec 0..4, [item, ...]]  put_object of a loose JSONL text,
+//!                    encoded with the codec (through ironbeam's auto_detect_writer);
+//!                    item = ["rec", pre, record, post, eol] | ["ws", text, eol] | ["junk", text, eol],
+//!                    eol 0 = none (last item only), 1 = LF, 2 = CR LF               -> ["ok"]
+//!               ["del", bucket, key]  delete_object                                -> ["ok"]
+//!               ["cp", sbucket, skey, dbucket, dkey]  copy_object                  -> ["ok"] | ["err", k]
+//!               ["r", bucket, key]  read_cloud_jsonl_vec -> ["ok", signature id, [records]] | ["err", k]
+//!               ["x", bucket, pattern]  expand_cloud_glob, expand_cloud_glob_required
+//!                                                         -> [outcome, outcome, prefix seen]
+//!               ["g", bucket, pattern]  read_cloud_jsonl_glob  -> ["ok", [records]] | ["err", k]
+//!               ["ex", bucket, key]  object_exists                                 -> ["ok", bool]
+//!   many      in = [mode, style, n, pattern]  n objects with keys made by a formula (style);
+//!             mode 0: one byte each, expand_cloud_glob -> [["ok", count, digest] | ["err", k], prefix seen]
+//!             mode 1: object i written with the records 4i .. 4i + (i mod 3) - 1, read_cloud_jsonl_glob
+//!                     -> ["ok", count, digest] | ["err", k]
+//!   wide      in = [key, n, width, mode]  records [i, s_i], s_i = width letters (mode 0: one letter
+//!             per record, mode 1: pseudo-random); written in one call, read back;
+//!             out = ["ok", n written, n read, sum of ids, ids consecutive, total payload length,
+//!                    read back == written, sum of the first letters, signature id] | ["err", stage]
+//! A string is a JSON string, an array of code points, or an array of [string, count] pairs (the
+//! concatenation of the repeated pieces; for long keys and patterns).
+//! Outcomes: ["ok", v] | ["err", kind].
 use ibv::{Emitter, SplitMix64, Tier, drive, run_caught};
 use ironbeam::io::cloud::FakeObjectIO;
 use ironbeam::io::cloud::readers::{
@@ -30,8 +53,10 @@ use ironbeam::io::cloud::readers::{
     write_cloud_jsonl_vec,
 };
 use ironbeam::io::cloud::traits::{CloudResult, ObjectIO, ObjectMetadata};
+use ironbeam::io::compression::auto_detect_writer;
 use serde_json::{Value, json};
-use std::sync::Mutex;
+use std::io::Write;
+use std::sync::{Arc, Mutex};
 
 const BUCKET: &str = "b";
 
@@ -78,6 +103,10 @@ impl ObjectIO for Spy {
 fn str_of(v: &Value) -> String {
     match v {
         Value::String(s) => s.clone(),
+        Value::Array(a) if a.first().is_some_and(Value::is_array) => a
+            .iter()
+            .map(|p| str_of(&p[0]).repeat(p[1].as_u64().expect("count") as usize))
+            .collect(),
         Value::Array(a) => a
             .iter()
             .map(|c| char::from_u32(c.as_u64().expect("code point") as u32).expect("scalar"))
@@ -89,13 +118,56 @@ fn codes_of(s: &str) -> Value {
     Value::Array(s.chars().map(|c| json!(c as u32)).collect())
 }
 
+/// a long string as [piece, count] pairs (greedy search for short periods), a short one as is
+fn compress_str(s: &str) -> Value {
+    let cs: Vec<char> = s.chars().collect();
+    let n = cs.len();
+    if n <= 300 {
+        return Value::String(s.to_string());
+    }
+    let mut pieces: Vec<Value> = Vec::new();
+    let mut lit = String::new();
+    let mut i = 0;
+    while i < n {
+        let mut best = (0usize, 0usize);
+        for p in 1..=4usize {
+            if i + p > n {
+                break;
+            }
+            let mut count = 1;
+            while i + (count + 1) * p <= n && cs[i + count * p..i + (count + 1) * p] == cs[i..i + p] {
+                count += 1;
+            }
+            if count >= 8 && count * p > best.0 * best.1 {
+                best = (p, count);
+            }
+        }
+        if best.1 > 0 {
+            if !lit.is_empty() {
+                pieces.push(json!([lit, 1]));
+                lit = String::new();
+            }
+            let unit: String = cs[i..i + best.0].iter().collect();
+            pieces.push(json!([unit, best.1]));
+            i += best.0 * best.1;
+        } else {
+            lit.push(cs[i]);
+            i += 1;
+        }
+    }
+    if !lit.is_empty() {
+        pieces.push(json!([lit, 1]));
+    }
+    Value::Array(pieces)
+}
+
 fn keys_outcome(r: CloudResult<Vec<String>>, as_codes: bool) -> Value {
     match r {
         Ok(ks) => {
             if as_codes {
                 json!(["ok", ks.iter().map(|k| codes_of(k)).collect::<Vec<_>>()])
             } else {
-                json!(["ok", ks])
+                json!(["ok", ks.iter().map(|k| compress_str(k)).collect::<Vec<_>>()])
             }
         }
         Err(e) => json!(["err", format!("{:?}", e.kind)]),
@@ -135,6 +207,241 @@ fn signature_id(bytes: &[u8]) -> i64 {
     }
 }
 
+
+/// a `Write` that appends to a shared buffer (auto_detect_writer wants an owned 'static writer)
+struct Shared(Arc<Mutex<Vec<u8>>>);
+impl Write for Shared {
+    fn write(&mut self, b: &[u8]) -> std::io::Result<usize> {
+        self.0.lock().unwrap().extend_from_slice(b);
+        Ok(b.len())
+    }
+    fn flush(&mut self) -> std::io::Result<()> {
+        Ok(())
+    }
+}
+
+/// `text` encoded with codec 0 (none) | 1 gzip | 2 zstd | 3 bzip2 | 4 xz by ironbeam's own
+/// extension-driven writer (src/io/compression.rs: auto_detect_writer)
+fn encode_with(codec: i64, text: &[u8]) -> Vec<u8> {
+    let hint = match codec {
+        0 => return text.to_vec(),
+        1 => "x.gz",
+        2 => "x.zst",
+        3 => "x.bz2",
+        4 => "x.xz",
+        _ => panic!("codec id"),
+    };
+    let buf = Arc::new(Mutex::new(Vec::new()));
+    {
+        let mut w = auto_detect_writer(Shared(buf.clone()), hint).expect("writer");
+        w.write_all(text).unwrap();
+        w.flush().unwrap();
+    }
+    let v = buf.lock().unwrap().clone();
+    v
+}
+
+fn eol_of(v: &Value) -> &'static str {
+    match v.as_i64().unwrap() {
+        0 => "",
+        1 => "\n",
+        2 => "\r\n",
+        _ => panic!("eol"),
+    }
+}
+
+/// the loose JSONL text of a "raw" op
+fn raw_text(items: &[Value]) -> String {
+    let mut t = String::new();
+    for it in items {
+        match it[0].as_str().unwrap() {
+            "rec" => {
+                t.push_str(&str_of(&it[1]));
+                t.push_str(&serde_json::to_string(&it[2]).unwrap());
+                t.push_str(&str_of(&it[3]));
+                t.push_str(eol_of(&it[4]));
+            }
+            "ws" | "junk" => {
+                t.push_str(&str_of(&it[1]));
+                t.push_str(eol_of(&it[2]));
+            }
+            _ => panic!("item"),
+        }
+    }
+    t
+}
+
+fn err_of<T>(r: &CloudResult<T>) -> Value {
+    match r {
+        Ok(_) => json!(["ok"]),
+        Err(e) => json!(["err", format!("{:?}", e.kind)]),
+    }
+}
+
+fn seen_of(st: &Spy) -> Value {
+    match st.seen.lock().unwrap().clone() {
+        None => json!(["nocall"]),
+        Some(None) => json!(["none"]),
+        Some(Some(p)) => json!(["some", compress_str(&p)]),
+    }
+}
+
+fn run_ops(input: &Value) -> Value {
+    let st = Spy::new();
+    let mut outs: Vec<Value> = Vec::new();
+    for op in input[0].as_array().unwrap() {
+        let a = |i: usize| str_of(&op[i]);
+        let o = match op[0].as_str().unwrap() {
+            "w" => {
+                let recs: Vec<Value> = op[3].as_array().unwrap().clone();
+                match write_cloud_jsonl_vec(&st, &a(1), &a(2), &recs) {
+                    Ok(n) => json!(["ok", n]),
+                    Err(e) => json!(["err", format!("{:?}", e.kind)]),
+                }
+            }
+            "raw" => {
+                let text = raw_text(op[4].as_array().unwrap());
+                let bytes = encode_with(op[3].as_i64().unwrap(), text.as_bytes());
+                err_of(&st.put_object(&a(1), &a(2), &bytes))
+            }
+            "del" => err_of(&st.delete_object(&a(1), &a(2))),
+            "cp" => err_of(&st.copy_object(&a(1), &a(2), &a(3), &a(4))),
+            "ex" => match st.object_exists(&a(1), &a(2)) {
+                Ok(b) => json!(["ok", b]),
+                Err(e) => json!(["err", format!("{:?}", e.kind)]),
+            },
+            "r" => match read_cloud_jsonl_vec::<Value, _>(&st, &a(1), &a(2)) {
+                Ok(v) => {
+                    let sig = signature_id(&st.get_object(&a(1), &a(2)).unwrap());
+                    json!(["ok", sig, v])
+                }
+                Err(e) => json!(["err", format!("{:?}", e.kind)]),
+            },
+            "x" => {
+                *st.seen.lock().unwrap() = None;
+                let o1 = keys_outcome(expand_cloud_glob(&st, &a(1), &a(2)), false);
+                let seen = seen_of(&st);
+                let o2 = keys_outcome(expand_cloud_glob_required(&st, &a(1), &a(2)), false);
+                json!([o1, o2, seen])
+            }
+            "g" => match read_cloud_jsonl_glob::<Value, _>(&st, &a(1), &a(2)) {
+                Ok(v) => json!(["ok", v]),
+                Err(e) => json!(["err", format!("{:?}", e.kind)]),
+            },
+            _ => panic!("op"),
+        };
+        outs.push(o);
+    }
+    Value::Array(outs)
+}
+
+const DIGEST_P: u64 = 1_000_000_007;
+
+/// key of object i in a "many" bucket
+fn many_key(style: i64, i: u64) -> String {
+    match style {
+        0 => format!("part-{i}"),
+        1 => format!("d{}/part-{:05}.jsonl", i % 7, i),
+        2 => format!("{i}"),
+        3 => format!("k{i}{}", ["", ".gz", ".zst", ".bz2", ".xz"][(i % 5) as usize]),
+        _ => panic!("style"),
+    }
+}
+
+fn key_hash(k: &str) -> u64 {
+    let mut h = 0u64;
+    for (j, c) in k.chars().enumerate() {
+        h = (h + (j as u64 + 1) * (c as u64)) % DIGEST_P;
+    }
+    h
+}
+
+fn run_many(input: &Value) -> Value {
+    let mode = input[0].as_i64().unwrap();
+    let style = input[1].as_i64().unwrap();
+    let n = input[2].as_u64().unwrap();
+    let pattern = str_of(&input[3]);
+    let st = Spy::new();
+    // insertion order: odd indices downwards, then even indices upwards
+    let order: Vec<u64> = (0..n).rev().filter(|i| i % 2 == 1).chain((0..n).filter(|i| i % 2 == 0)).collect();
+    for i in order {
+        let key = many_key(style, i);
+        if mode == 0 {
+            st.put_object(BUCKET, &key, b"x").unwrap();
+        } else {
+            let recs: Vec<u64> = (0..i % 3).map(|j| 4 * i + j).collect();
+            write_cloud_jsonl_vec(&st, BUCKET, &key, &recs).unwrap();
+        }
+    }
+    if mode == 0 {
+        let o = match expand_cloud_glob(&st, BUCKET, &pattern) {
+            Ok(ks) => {
+                let mut d = 0u64;
+                for (idx, k) in ks.iter().enumerate() {
+                    d = (d + (idx as u64 + 1) * key_hash(k)) % DIGEST_P;
+                }
+                json!(["ok", ks.len(), d])
+            }
+            Err(e) => json!(["err", format!("{:?}", e.kind)]),
+        };
+        json!([o, seen_of(&st)])
+    } else {
+        match read_cloud_jsonl_glob::<u64, _>(&st, BUCKET, &pattern) {
+            Ok(v) => {
+                let mut d = 0u64;
+                for (idx, x) in v.iter().enumerate() {
+                    d = (d + (idx as u64 + 1) * (x % DIGEST_P)) % DIGEST_P;
+                }
+                json!(["ok", v.len(), d])
+            }
+            Err(e) => json!(["err", format!("{:?}", e.kind)]),
+        }
+    }
+}
+
+/// payload of record i of a "wide" case
+fn wide_payload(i: u64, width: usize, mode: i64) -> String {
+    if mode == 0 {
+        let c = (b'a' + (i % 26) as u8) as char;
+        std::iter::repeat_n(c, width).collect()
+    } else {
+        let mut x = SplitMix64::new(0xC19_0000 + i);
+        let mut s = String::with_capacity(width);
+        let mut w = 0u64;
+        for j in 0..width {
+            if j % 12 == 0 {
+                w = x.next_u64();
+            }
+            s.push((b'a' + (w % 26) as u8) as char);
+            w /= 26;
+        }
+        s
+    }
+}
+
+fn run_wide(input: &Value) -> Value {
+    let key = str_of(&input[0]);
+    let n = input[1].as_u64().unwrap();
+    let width = input[2].as_u64().unwrap() as usize;
+    let mode = input[3].as_i64().unwrap();
+    let recs: Vec<(u64, String)> = (0..n).map(|i| (i, wide_payload(i, width, mode))).collect();
+    let st = FakeObjectIO::new();
+    let nw = match write_cloud_jsonl_vec(&st, BUCKET, &key, &recs) {
+        Ok(k) => k,
+        Err(e) => return json!(["err", format!("write:{:?}", e.kind)]),
+    };
+    let sig = signature_id(&st.get_object(BUCKET, &key).unwrap());
+    let back: Vec<(u64, String)> = match read_cloud_jsonl_vec(&st, BUCKET, &key) {
+        Ok(v) => v,
+        Err(e) => return json!(["err", format!("read:{:?}", e.kind)]),
+    };
+    let sum: u64 = back.iter().map(|r| r.0).sum();
+    let consecutive = back.iter().enumerate().all(|(i, r)| r.0 == i as u64);
+    let total: usize = back.iter().map(|r| r.1.chars().count()).sum();
+    let firsts: u64 = back.iter().map(|r| r.1.chars().next().map_or(0, |c| c as u64)).sum();
+    json!(["ok", nw, back.len(), sum, consecutive, total, back == recs, firsts, sig])
+}
+
 fn run(kind: &str, input: &Value) -> Value {
     match kind {
         "expand" => {
@@ -164,7 +471,7 @@ fn run(kind: &str, input: &Value) -> Value {
             let seen = match st.seen.lock().unwrap().clone() {
                 None => json!(["nocall"]),
                 Some(None) => json!(["none"]),
-                Some(Some(p)) => json!(["some", p]),
+                Some(Some(p)) => json!(["some", compress_str(&p)]),
             };
             let o2 = keys_outcome(expand_cloud_glob_required(&st, BUCKET, &pattern), false);
             json!([o1, o2, seen])
@@ -263,6 +570,9 @@ fn run(kind: &str, input: &Value) -> Value {
                 .collect();
             Value::Array(outs)
         }
+        "ops" => run_ops(input),
+        "many" => run_many(input),
+        "wide" => run_wide(input),
         _ => json!(["bad-kind"]),
     }
 }
@@ -361,6 +671,12 @@ fn nontrivial(kind: &str, input: &Value, out: &Value) -> bool {
             let keys: Vec<String> = ws.iter().map(|o| str_of(&o[0])).collect();
             let reads: Vec<String> = input[1].as_array().unwrap().iter().map(str_of).collect();
             reads.iter().any(|k| keys.iter().filter(|x| *x == k).count() >= 2)
+        }
+        "ops" => {
+            // at least two calls that change the store and one that observes it
+            let ops = input[0].as_array().unwrap();
+            let is_mut = |o: &Value| matches!(o[0].as_str(), Some("w" | "raw" | "del" | "cp"));
+            ops.iter().filter(|o| is_mut(o)).count() >= 2 && ops.iter().any(|o| !is_mut(o))
         }
         "readglob" => {
             input[0].as_array().unwrap().len() >= 2
@@ -867,6 +1183,385 @@ fn generate(seed: u64, tier: Tier, em: &mut Emitter) {
             emit(em, "seq", json!([writes, reads]), &["overwrite", "random"]);
         } else {
             emit(em, "readglob", json!([writes, rng.pick(&["**", "*", "k*", "d/*", "?0*"])]), &["overwrite", "random", "glob"]);
+        }
+    }
+    generate_more(seed, tier, em);
+}
+
+
+fn emit_nt(em: &mut Emitter, kind: &str, input: Value, nt: bool, tags: &[&str]) {
+    em.case(kind, input, nt, tags);
+}
+
+/// string spec: the concatenation of `count` copies of each piece
+fn spec(parts: &[(&str, usize)]) -> Value {
+    Value::Array(parts.iter().map(|(u, c)| json!([u, c])).collect())
+}
+
+const OPS_BUCKETS: &[&str] = &["b", "b2", "a", "a/b", "", "B", "b\u{fc}", "logs", "a b"];
+const OPS_KEYS: &[&str] = &[
+    "k", "k.gz", "k.zst", "k.bz2", "k.xz", "K.GZ", "b/c", "c", "d/k.jsonl", "d/k.jsonl.gz", "d/.gz", "",
+    "/", "a b", "\u{e9}.zst", "x+y", "k.gz.bak", "_SUCCESS", ".hidden", "d/_part", "d//e", "d/e/", "*", "k?",
+];
+const OPS_PATTERNS: &[&str] = &["**", "*", "k*", "d/*", "d/**", "?", "k.*", "*.gz", "**.gz", "b/c", "c", "k", "", "d//*", "**/*", "k?"];
+const PADS: &[&str] = &["", " ", "  ", "\t", " \t ", "\r"];
+const BLANKS: &[&str] = &[
+    "", " ", "\t", "   ", "\r", " \r", "\u{b}", "\u{c}", "\u{a0}", "\u{85}", "\u{1680}", "\u{2000}", "\u{2003}",
+    "\u{200a}", "\u{2028}", "\u{2029}", "\u{202f}", "\u{205f}", "\u{3000}", " \u{a0}\t\u{3000}",
+];
+/// not JSON (and not blank): reading an object with such a line fails
+const JUNK: &[&str] = &[
+    "{oops", "1 2", "[1,", "nul", "\u{b}1", "\u{a0}7", "\u{200b}", "\u{feff}", "\u{180e}", "\u{2060}", "x", "'a'",
+    "\u{c2}", "1\u{3000}",
+];
+
+fn gen_raw_items(rng: &mut SplitMix64, pool: &[Value], allow_junk: bool) -> Vec<Value> {
+    let n = rng.below(6) as usize;
+    let mut items: Vec<Value> = Vec::new();
+    for i in 0..n {
+        let last = i + 1 == n;
+        let eol = if last && rng.chance(1, 2) { 0 } else { 1 + rng.below(2) };
+        let it = match rng.below(10) {
+            0..=5 => json!(["rec", rng.pick(PADS), rng.pick(pool).clone(), rng.pick(PADS), eol]),
+            6..=8 => json!(["ws", rng.pick(BLANKS), eol]),
+            _ => {
+                if allow_junk && rng.chance(1, 3) {
+                    json!(["junk", rng.pick(JUNK), eol])
+                } else {
+                    json!(["ws", rng.pick(BLANKS), eol])
+                }
+            }
+        };
+        items.push(it);
+    }
+    items
+}
+
+fn gen_ops(rng: &mut SplitMix64, pool: &[Value]) -> Vec<Value> {
+    let nb = 1 + rng.below(3) as usize;
+    let mut buckets: Vec<&str> = Vec::new();
+    if rng.chance(1, 4) {
+        // a pair a flattened "bucket/key" map would confuse
+        buckets.push("a");
+        buckets.push("a/b");
+    }
+    while buckets.len() < nb {
+        let b = *rng.pick(OPS_BUCKETS);
+        if !buckets.contains(&b) {
+            buckets.push(b);
+        }
+    }
+    let nk = 2 + rng.below(4) as usize;
+    let mut keys: Vec<String> = Vec::new();
+    while keys.len() < nk {
+        let k = if rng.chance(3, 4) { rng.pick(OPS_KEYS).to_string() } else { gen_key(rng) };
+        if !keys.contains(&k) {
+            keys.push(k);
+        }
+    }
+    let mut ops: Vec<Value> = Vec::new();
+    let nops = 3 + rng.below(10) as usize;
+    for _ in 0..nops {
+        let b = *rng.pick(&buckets);
+        let k = rng.pick(&keys).clone();
+        let o = match rng.below(100) {
+            0..=34 => json!(["w", b, k, gen_records(rng, pool, 4)]),
+            35..=44 => json!(["raw", b, k, rng.below(5), gen_raw_items(rng, pool, true)]),
+            45..=56 => json!(["del", b, k]),
+            57..=64 => json!(["cp", b, k, *rng.pick(&buckets), rng.pick(&keys).clone()]),
+            65..=76 => json!(["r", b, k]),
+            77..=86 => json!(["x", b, *rng.pick(OPS_PATTERNS)]),
+            87..=95 => json!(["g", b, *rng.pick(OPS_PATTERNS)]),
+            _ => json!(["ex", b, k]),
+        };
+        ops.push(o);
+    }
+    // final inspection of everything
+    for b in &buckets {
+        for k in &keys {
+            ops.push(json!(["r", b, k]));
+        }
+        ops.push(json!(["x", b, "**"]));
+        ops.push(json!(["g", b, *rng.pick(OPS_PATTERNS)]));
+    }
+    ops
+}
+
+fn generate_more(seed: u64, tier: Tier, em: &mut Emitter) {
+    let thorough = tier == Tier::Thorough;
+    let pool = record_pool();
+    let mut rng = SplitMix64::new(seed ^ 0xC19_0002);
+
+    // ---- 8. adjacent / repeated wildcards: every pattern of length <= 3 over {* ? a /} and every
+    //         pattern of length 4 (thorough 5) with at least two wildcards, against all keys of
+    //         length <= 5 over {a /}
+    let wal: Vec<char> = "*?a/".chars().collect();
+    for p in all_seqs(&wal, if thorough { 5 } else { 4 }) {
+        let nw = p.chars().filter(|c| "*?".contains(*c)).count();
+        if p.chars().count() <= 3 || nw >= 2 {
+            emit(em, "sweep", json!([p, "a/", 5]), &["exhaustive", "adjacent-wildcards"]);
+        }
+    }
+    for p in ["******", "*******", "**?**", "*?*?*", "?*?*?", "**/**", "**/**/**", "*/**/*", "??????", "*?**?*", "a**/**a", "/**/", "//", "*//*", "**//**"] {
+        emit(em, "sweep", json!([p, "a/", 5]), &["exhaustive", "adjacent-wildcards"]);
+    }
+
+    // ---- 9. very long keys and patterns (strings given as [piece, count] lists)
+    let lens: Vec<usize> = if thorough {
+        vec![63, 64, 65, 127, 128, 129, 255, 256, 257, 511, 512, 513, 1023, 1024, 1025, 2048, 4096, 8192]
+    } else {
+        vec![255, 256, 257, 1023, 1024, 1025, 4096]
+    };
+    for &l in &lens {
+        let keys = json!([
+            spec(&[("a", l)]),
+            spec(&[("a", l - 1)]),
+            spec(&[("a", l), (".gz", 1)]),
+            spec(&[("ab/", l / 3), ("x", 1)]),
+            spec(&[("\u{e9}", l)]),
+            spec(&[("a", l), ("/", 1), ("b", l)]),
+            "a",
+        ]);
+        for p in [
+            spec(&[("a", l)]),
+            spec(&[("a", l - 1), ("?", 1)]),
+            spec(&[("a", l - 1), ("*", 1)]),
+            spec(&[("a", l / 2), ("*", 1), ("a", 1)]),
+            spec(&[("a", l), (".gz", 1)]),
+            spec(&[("a", l), ("*", 1)]),
+            spec(&[("a", l), ("**", 1)]),
+            spec(&[("ab/", l / 3), ("?", 1)]),
+            spec(&[("**x", 1)]),
+            spec(&[("\u{e9}", l - 1), ("?", 1)]),
+            spec(&[("?", l)]),
+            spec(&[("*a", l)]),
+            spec(&[("a", l), ("/", 1), ("*", 1)]),
+            spec(&[("*", 1), ("/", 1), ("b", l)]),
+        ] {
+            emit(em, "expand", json!([true, keys, p]), &["long-keys"]);
+        }
+        for ext in ["", ".gz", ".ZST", ".bz2", ".xz", "/"] {
+            emit(em, "roundtrip", json!([spec(&[("a", l), (ext, 1)]), [1, "x", [l]]]), &["long-keys"]);
+            emit(em, "roundtrip", json!([spec(&[("d/", l / 2), ("k", 1), (ext, 1)]), []]), &["long-keys", "empty"]);
+        }
+    }
+    // a literal key of 65536 characters; 8192 single-character wildcards (Regex::new accepts them)
+    for l in [16384usize, 65536] {
+        let keys = json!([spec(&[("a", l)]), spec(&[("a", l - 1)]), "a"]);
+        emit(em, "expand", json!([true, keys, spec(&[("a", l)])]), &["long-keys", "huge"]);
+        emit(em, "expand", json!([true, keys, spec(&[("a", l - 2), ("?", 1)])]), &["long-keys", "huge"]);
+        emit(em, "roundtrip", json!([spec(&[("a", l), (".gz", 1)]), [1, 2]]), &["long-keys", "huge"]);
+    }
+    emit(em, "expand", json!([true, [spec(&[("a", 8192)]), "a"], spec(&[("?", 8192)])]), &["long-keys", "many-wildcards"]);
+    emit(em, "expand", json!([true, [spec(&[("a", 4096)]), "b"], spec(&[("*a", 4096)])]), &["long-keys", "many-wildcards"]);
+    emit(em, "expand", json!([true, [spec(&[("a", 2048)]), "b"], spec(&[("**a", 2048)])]), &["long-keys", "many-wildcards"]);
+
+    // ---- 10. call sequences on one store with several buckets
+    let a = json!([12, "ab", [3, "cd", true]]);
+    let b2 = json!([34, "cd"]);
+    let long: Value = Value::Array((0..40).map(|i| json!([100 + i, "row"])).collect());
+    for key in ["k", "k.gz", "k.zst", "k.bz2", "k.xz", "d/k.jsonl.GZ", ".gz", ""] {
+        // delete + rewrite; the bucket stays after its last object is deleted
+        emit(
+            em,
+            "ops",
+            json!([[
+                ["w", "b", key, long], ["r", "b", key], ["del", "b", key], ["r", "b", key], ["ex", "b", key],
+                ["x", "b", "**"], ["g", "b", "**"], ["w", "b", key, b2], ["r", "b", key], ["x", "b", "**"],
+                ["g", "b", "*"], ["del", "b", key], ["del", "b", key], ["w", "b", key, a], ["w", "b", key, []],
+                ["r", "b", key], ["g", "b", "**"], ["ex", "b", key]
+            ]]),
+            &["ops", "delete-rewrite"],
+        );
+        // the same key in several buckets
+        emit(
+            em,
+            "ops",
+            json!([[
+                ["w", "b", key, a], ["w", "b2", key, b2], ["w", "", key, long], ["r", "b", key], ["r", "b2", key],
+                ["r", "", key], ["r", "b3", key], ["x", "b", "**"], ["x", "b2", "**"], ["x", "b3", "**"],
+                ["g", "b", "**"], ["g", "b2", "**"], ["g", "", "**"], ["del", "b", key], ["r", "b", key],
+                ["r", "b2", key], ["x", "b", "*"], ["x", "b2", "*"], ["del", "b3", key], ["x", "b3", "*"],
+                ["w", "b", key, b2], ["g", "b", "**"], ["g", "b2", "**"]
+            ]]),
+            &["ops", "several-buckets"],
+        );
+        // copies: same codec class, neutral destination (signature fallback), wrong class, other bucket
+        for dst in ["c", "c.gz", "c.zst", "c.bz2", "c.xz", "c.jsonl", key] {
+            emit(
+                em,
+                "ops",
+                json!([[
+                    ["w", "b", key, a], ["cp", "b", key, "b", dst], ["r", "b", dst], ["cp", "b", key, "o", dst],
+                    ["r", "o", dst], ["r", "b", key], ["x", "b", "**"], ["x", "o", "**"], ["cp", "b", "missing", "b", "z"],
+                    ["cp", "nobucket", key, "b", "z"], ["ex", "b", "z"], ["x", "nobucket", "*"], ["g", "o", "**"]
+                ]]),
+                &["ops", "copy"],
+            );
+        }
+    }
+    // bucket / key pairs that a flattened "bucket/key" map would confuse
+    emit(
+        em,
+        "ops",
+        json!([[
+            ["w", "a", "b/c", [1]], ["w", "a/b", "c", [2]], ["r", "a", "b/c"], ["r", "a/b", "c"], ["x", "a", "**"],
+            ["x", "a/b", "**"], ["del", "a", "b/c"], ["r", "a/b", "c"], ["x", "a", "**"], ["x", "a/b", "**"],
+            ["w", "", "a/b/c", [3]], ["r", "", "a/b/c"], ["r", "a", "b/c"], ["g", "a/b", "*"], ["g", "", "**"]
+        ]]),
+        &["ops", "several-buckets", "flatten"],
+    );
+    // repeated calls with alternating patterns (a cached matcher must be keyed by the pattern)
+    emit(
+        em,
+        "ops",
+        json!([[
+            ["w", "b", "d/a.jsonl", [1]], ["w", "b", "d/b.jsonl.gz", [2, 3]], ["w", "b", "e/c.jsonl", [4]],
+            ["x", "b", "d/*"], ["x", "b", "e/*"], ["x", "b", "d/*"], ["g", "b", "d/*"], ["g", "b", "e/*"],
+            ["g", "b", "d/*"], ["w", "b", "d/c.jsonl", [5]], ["x", "b", "d/*"], ["g", "b", "d/*"],
+            ["del", "b", "d/a.jsonl"], ["x", "b", "d/*"], ["g", "b", "d/*"], ["x", "b2", "d/*"], ["x", "b", "d/?.jsonl"],
+            ["x", "b", "d/?.jsonl*"], ["x", "b", "d/*"], ["r", "b", "d/b.jsonl.gz"], ["r", "b", "d/b.jsonl.gz"]
+        ]]),
+        &["ops", "repeated-calls"],
+    );
+    // marker-like and odd keys read by glob
+    emit(
+        em,
+        "ops",
+        json!([[
+            ["w", "b", "d/_SUCCESS", [1]], ["w", "b", "d/.part.crc", [2]], ["w", "b", "d//e", [3]], ["w", "b", "d/e/", [4]],
+            ["w", "b", "/d", [5]], ["w", "b", "", [6]], ["w", "b", "d/ x", [7]], ["w", "b", "d/\u{e9}", [8]],
+            ["g", "b", "d/*"], ["g", "b", "**"], ["x", "b", "d//*"], ["x", "b", "d/*/"], ["x", "b", "/*"], ["x", "b", ""],
+            ["g", "b", ""], ["x", "b", "d/ *"], ["x", "b", "d/?"], ["del", "b", ""], ["x", "b", "**"]
+        ]]),
+        &["ops", "odd-keys"],
+    );
+    // loose JSONL texts: every codec x {matching key, neutral key, key of another codec}
+    let exts = ["", ".gz", ".zst", ".bz2", ".xz"];
+    let loose: Vec<Vec<Value>> = vec![
+        vec![],
+        vec![json!(["rec", "", 1, "", 0])],
+        vec![json!(["rec", "", 1, "", 1]), json!(["rec", "", [2, "x"], "", 0])],
+        vec![json!(["rec", "", 1, "", 2]), json!(["rec", " ", "a b", "\t", 2]), json!(["rec", "", null, "", 2])],
+        vec![json!(["ws", "", 1]), json!(["rec", "", 1, "", 1]), json!(["ws", "", 1]), json!(["ws", "  ", 1]), json!(["rec", "", 2, "", 1]), json!(["ws", "", 1])],
+        vec![json!(["ws", "", 2]), json!(["ws", "\t", 2]), json!(["rec", "  ", [1], " ", 2]), json!(["ws", " ", 0])],
+        vec![json!(["ws", "\u{a0}", 1]), json!(["rec", "", 1, "", 1]), json!(["ws", "\u{3000}\u{2003}", 1]), json!(["ws", "\u{85}", 2]), json!(["rec", "", 2, "", 0])],
+        vec![json!(["ws", "", 1]), json!(["ws", "", 1]), json!(["ws", "", 0])],
+        vec![json!(["rec", "", 1, "", 1]), json!(["junk", "{oops", 1]), json!(["rec", "", 2, "", 1])],
+        vec![json!(["rec", "", 1, "", 1]), json!(["junk", "\u{200b}", 1])],
+        vec![json!(["rec", "\r", "cr", "\r", 2]), json!(["rec", "", "x", "\r\r", 1])],
+    ];
+    for (ci, _) in exts.iter().enumerate() {
+        for kext in exts {
+            for items in &loose {
+                let key = format!("t{kext}");
+                emit(
+                    em,
+                    "ops",
+                    json!([[["raw", "b", key, ci, items], ["r", "b", key], ["g", "b", "*"], ["x", "b", "t*"]]]),
+                    &["ops", "loose-text"],
+                );
+            }
+        }
+    }
+    for b in BLANKS {
+        emit(
+            em,
+            "ops",
+            json!([[["raw", "b", "t", 0, [["rec", "", 1, "", 1], ["ws", b, 1], ["rec", "", 2, "", 1], ["ws", b, 0]]], ["r", "b", "t"]]]),
+            &["ops", "loose-text", "blank-line"],
+        );
+    }
+    for j in JUNK {
+        emit(
+            em,
+            "ops",
+            json!([[["raw", "b", "t", 0, [["rec", "", 1, "", 1], ["junk", j, 1]]], ["r", "b", "t"], ["w", "b", "u", [5]], ["g", "b", "*"], ["g", "b", "u"]]]),
+            &["ops", "loose-text", "junk-line"],
+        );
+    }
+    let nops = if thorough { 6000 } else { 350 };
+    for _ in 0..nops {
+        let ops = gen_ops(&mut rng, &pool);
+        emit(em, "ops", json!([ops]), &["ops", "random"]);
+    }
+
+    // ---- 11. many objects in one bucket (listing page sizes: 1000 on the large providers)
+    let many_ns: Vec<u64> = if thorough {
+        vec![0, 1, 999, 1000, 1001, 1023, 1024, 1025, 2000, 2001, 4095, 4096, 4097, 9999, 10000, 10001, 65536, 100000]
+    } else {
+        vec![999, 1000, 1001, 1024, 2001, 4097, 10001]
+    };
+    for &n in &many_ns {
+        for (style, pats) in [
+            (0i64, vec!["part-*", "**", "part-1*", "part-?", "part-??9"]),
+            (1, vec!["d3/*", "**/part-*9.jsonl", "d?/part-0*"]),
+            (2, vec!["*", "1*", "??"]),
+        ] {
+            for p in pats {
+                emit_nt(em, "many", json!([0, style, n, p]), n > 1, &["many-objects", "expand"]);
+            }
+        }
+    }
+    if !thorough {
+        emit_nt(em, "many", json!([0, 0, 65536, "part-6553*"]), true, &["many-objects", "expand"]);
+        emit_nt(em, "many", json!([0, 1, 65536, "d6/part-6*"]), true, &["many-objects", "expand"]);
+        emit_nt(em, "many", json!([0, 2, 20000, "**"]), true, &["many-objects", "expand"]);
+    }
+    let read_ns: Vec<u64> = if thorough { vec![1, 2, 999, 1000, 1001, 1024, 1025, 2048, 2049, 3000] } else { vec![999, 1000, 1001, 1025] };
+    for &n in &read_ns {
+        for (style, p) in [(3i64, "**"), (3, "k*.gz"), (3, "k1*"), (0, "part-*"), (1, "d0/*")] {
+            emit_nt(em, "many", json!([1, style, n, p]), n > 1, &["many-objects", "read"]);
+        }
+    }
+
+    // ---- 12. wide payloads: > 1 MiB decoded per object, long single lines, for every codec
+    let wide_keys: Vec<&str> = if thorough {
+        vec!["w", "w.jsonl", "w.gz", "w.GZIP", "w.zst", "w.zstd", "w.bz2", "w.bzip2", "w.xz", ".xz"]
+    } else {
+        vec!["w", "w.gz", "w.zst", "w.bz2", "w.xz"]
+    };
+    let shapes: Vec<(u64, u64)> = if thorough {
+        vec![(1, 1 << 21), (1, 1 << 22), (3, 1 << 20), (5, (1 << 20) + 1), (64, 1 << 15), (1024, 1 << 11), (40, 70000), (70000, 40), (300, 10000)]
+    } else {
+        vec![(1, 1 << 21), (3, 1 << 20), (64, 1 << 15), (1024, 1 << 11), (40, 70000)]
+    };
+    for key in &wide_keys {
+        for &(n, w) in &shapes {
+            emit_nt(em, "wide", json!([key, n, w, 0]), true, &["wide", "compressible"]);
+        }
+        emit_nt(em, "wide", json!([key, 5, 300_000, 1]), true, &["wide", "random-letters"]);
+        emit_nt(em, "wide", json!([key, 2000, 700, 1]), true, &["wide", "random-letters"]);
+    }
+    // one long line across every power of two
+    for k in 4..=20u32 {
+        for d in [-1i64, 0, 1] {
+            let w = ((1i64 << k) + d) as u64;
+            for key in ["w", "w.gz"] {
+                if thorough || k >= 10 || key == "w" {
+                    emit_nt(em, "wide", json!([key, 2, w, 0]), true, &["wide", "line-length"]);
+                }
+            }
+            if thorough {
+                for key in ["w.zst", "w.bz2", "w.xz"] {
+                    emit_nt(em, "wide", json!([key, 2, w, (k % 2) as i64]), true, &["wide", "line-length"]);
+                }
+            }
+        }
+    }
+    emit_nt(em, "wide", json!(["w", 0, 10, 0]), false, &["wide", "empty"]);
+    emit_nt(em, "wide", json!(["w.gz", 3, 0, 0]), true, &["wide", "empty-strings"]);
+
+    // ---- 13. record counts around every power of two
+    let pow_keys = ["n", "n.gz", "n.zst", "n.bz2", "n.xz"];
+    for k in 4..=16u32 {
+        for d in [-1i64, 0, 1] {
+            let n = (1i64 << k) + d;
+            for key in pow_keys {
+                if thorough || k <= 12 || key == "n" || key == "n.gz" || d == 1 {
+                    emit_nt(em, "big", json!([key, n]), true, &["big", "powers-of-two"]);
+                }
+            }
         }
     }
 }
